@@ -27,6 +27,14 @@ def build(prop, params):
               'script': scen.default_script(), 'meta': {}}
     elif k == 9:
         sc = scen.corpus_scenario(r, idx=params['i'] // 10)
+    elif prop == 'C08' and k in (4, 5):
+        # handlers that never resume (END, re-raise, RETURN) are the error
+        # handling programs this property covers in full (no RESUME exemption):
+        # errors at module level, in GOSUB routines and in procedures called
+        # from them
+        sc = scen.generated_scenario(
+            s, family='any', onerror=True, gosub=True, procs=True, devices=True,
+            onerror_mode=r.choice(('goto_return', 'goto_end', 'goto_reraise', 'goto_return')))
     else:
         force = {}
         if prop == 'C02' and r.random() < 0.5:
